@@ -51,7 +51,7 @@ Fixpoint dealloc_all (m : mgr) (bs : list block) (w : world) : res unit :=
   end.
 
 (* ================================================================ crew-based containers *)
-Inductive ckind := KHash | KTree | KMulti.     (* HashSet/HashMap, TreeSet/TreeMap, HashMultiMap *)
+Inductive ckind := KHash | KTree | KMulti | KTable.     (* HashSet/HashMap, TreeSet/TreeMap, HashMultiMap, DataTable *)
 
 Record crewd := mkCrew { cblocks : list block; cmgr : mgr }.
 (* SetCrew::Data (version, traits, the MemManager itself); HashMultiMap additionally has ValueCrew::Data *)
@@ -65,7 +65,7 @@ Inductive cc :=
 Definition shape (k : ckind) (n : nat) : nat :=
   match n with
   | O => O
-  | _ => match k with KHash => 1%nat | KTree => (1 + (n + 3) / 4)%nat | KMulti => (1 + n)%nat end
+  | _ => match k with KHash => 1%nat | KTree => (1 + (n + 3) / 4)%nat | KMulti | KTable => (1 + n)%nat end
   end.
 
 Definition items_of (c : cc) : list Z := match c with Owned _ _ i => i | MovedFrom => [] end.
@@ -88,7 +88,9 @@ Definition cc_destroy (k : ckind) (c : cc) (w : world) : res unit :=
 
 (* Clear(): HashSet: `if (mBuckets == nullptr) return;`  TreeSet (after a0dc6a6): `if (mRootNode == nullptr &&
    mNodeParams == nullptr) return;`  HashMultiMap: `if (!mValueCrew.IsNull()) {...}`.  Otherwise the body is
-   destroyed through GetMemManager() and mCrew.IncVersion() runs. *)
+   destroyed through GetMemManager() and mCrew.IncVersion() runs.  DataTable::Clear has NO early return for an empty
+   table; for the moved-from state the model describes the guarded behaviour `if (mCrew.IsNull()) return;` (the same
+   guard pvDestroyRaws already has) -- see NOTES.md, finding D14. *)
 Definition cc_clear (k : ckind) (c : cc) (w : world) : res cc :=
   match c with
   | MovedFrom => Ok MovedFrom w
@@ -293,3 +295,22 @@ Definition v_copy_assign (tr : traits) (ic : nat) (dst src : arr) (w : world) : 
 
 Definition v_swap (tr : traits) (a b : arr) (w : world) : res (arr * arr) :=
   if w_swap_assert_holds tr (amgr a) (amgr b) then arr_swap (proxy_assign tr false) a b w else SwapPre.
+
+(* ================================================================ uses of a container that need its crew (round 2) *)
+(* Find / ContainsKey / find(): GetHashTraits() / GetTreeTraits() through the crew *)
+Definition cc_find (c : cc) (v : Z) (w : world) : res bool :=
+  match c with MovedFrom => NullCrew | Owned _ _ items => Ok (existsb (Z.eqb v) items) w end.
+
+Fixpoint cc_insert_all (k : ckind) (multi : bool) (c : cc) (vs : list Z) (w : world) : res cc :=
+  match vs with
+  | [] => Ok c w
+  | v :: r => cc_insert k multi c v w >>= fun c1 w1 => cc_insert_all k multi c1 r w1
+  end.
+
+(* stdish operator=(std::initializer_list):  X tmp(mX.GetHashTraits(), MemManager(get_allocator())); tmp.Insert(...);
+   mX = std::move(tmp)   -- both GetHashTraits() and get_allocator() go through the crew of *this *)
+Definition w_assign_ilist (wk : wkind) (multi : bool) (c : cc) (vs : list Z) (w : world) : res cc :=
+  w_get_allocator c w >>= fun al w0 =>
+  cc_new (nested wk) al w0 >>= fun fresh w1 =>
+  cc_insert_all (nested wk) multi fresh vs w1 >>= fun tmp w2 =>
+  cc_move_assign (nested wk) c tmp w2 >>= fun '(c1, _) w3 => Ok c1 w3.
